@@ -1448,7 +1448,7 @@ impl<'a> Lifter<'a> {
             _ => {}
         }
         // other functions of the unit / externs: called by last segment
-        let key = if first == "Self" || first == "State" || p.path.segments.len() == 1 { last.clone() } else { path.replace("::", "_") };
+        let key = if path == "Self" { "Self_ctor".to_string() } else if first == "Self" || first == "State" || p.path.segments.len() == 1 { last.clone() } else { path.replace("::", "_") };
         if let Some((ptys, rty)) = self.reg.fns.get(&key).cloned() {
             let mut args = Vec::new();
             for a in &c.args {
@@ -1941,7 +1941,8 @@ pub fn lift_fn(ctx: &mut Ctx, blk: &Block) -> Result<(String, Value), String> {
                 impl<'ast> syn::visit::Visit<'ast> for C {
                     fn visit_expr_call(&mut self, c: &'ast syn::ExprCall) {
                         if let syn::Expr::Path(p) = &*c.func {
-                            if p.path.segments.last().map(|s| s.ident == self.0).unwrap_or(false) {
+                            let joined: String = p.path.segments.iter().map(|s| s.ident.to_string()).collect::<Vec<_>>().join("_");
+                            if p.path.segments.last().map(|s| s.ident == self.0).unwrap_or(false) || joined == self.0 {
                                 self.1 = true;
                             }
                         }
